@@ -1,4 +1,4 @@
-import MpVerif.C08.LemmasHistory
+import MpVerif.C08.LemmasGen
 /-!
 # C08 — property theorems
 
@@ -291,6 +291,119 @@ theorem C08_history_solution (pd0 : Pd) (ms : List MatrixModel) (m : MatrixModel
   rw [C08_history_last]
   exact ⟨onPrimalPd_pdOf m xs hl, onSuffixPd_pdOf m kind entries⟩
 
+/-! ## 8. Ties to the definitions GENERATED from the current source (`MpVerif.Gen.C08Easy`, translators/gen_easy_c08.py)
+
+The model functions the theorems above speak about are proved equal to what the translator extracts from
+`nl-solver.cc` on every run; a change of the C++ changes the generated file and these proofs stop checking. -/
+section Gen
+open MpVerif.Gen.C08Easy
+
+/-- the text of every mechanism function is the text the model was written against -/
+theorem C08_gen_skeletons : MpVerif.Gen.C08Easy.skeletons = Expected.skeletons := rfl
+
+/-- what the translated expressions read (which array, which permutation direction), the loop header of `PermuteVars`
+and the statements around its column loop (`stable_sort` with the default `pair` order, the reverse-mapping loop) -/
+theorem C08_gen_leaves :
+    permuteStep_leaves = Expected.permuteStep_leaves ∧ permuteLoop_header = Expected.permuteLoop_header ∧
+    permuteVars_rest = Expected.permuteVars_rest ∧ objLinTerm_leaves = Expected.objLinTerm_leaves ∧
+    objQuadTerm_leaves = Expected.objQuadTerm_leaves ∧ sufTarget_leaves = Expected.sufTarget_leaves ∧
+    primalTarget_leaves = Expected.primalTarget_leaves ∧ feedSufIndex_leaves = Expected.feedSufIndex_leaves := by decide
+
+/-- the model's sort key is the value the generated loop body of `PermuteVars` leaves in `var_perm_[j].first`,
+whatever the cell and the counters held before -/
+theorem C08_gen_key (m : MatrixModel) (j : Nat) (s : Int × Int × Int × Int) : (stepOf m j s).1 = key m j := by
+  rw [stepOf_eq]
+
+/-- running the generated loop body over all columns (in the code's descending order) from zeroed counters yields the
+model's header class counts `nlvoi`, `niv`, `nbv` -/
+theorem C08_gen_header_counts (m : MatrixModel) :
+    ((List.range m.n).reverse.foldl (fun s j => stepOf m j s) (0, 0, 0, 0)).2.1 = nlvoi m ∧
+    ((List.range m.n).reverse.foldl (fun s j => stepOf m j s) (0, 0, 0, 0)).2.2.1 = niv m ∧
+    ((List.range m.n).reverse.foldl (fun s j => stepOf m j s) (0, 0, 0, 0)).2.2.2 = nbv m := by
+  have h := foldl_stepOf m (List.range m.n).reverse (0, 0, 0, 0)
+  simp only [List.countP_reverse, Int.zero_add] at h
+  exact h
+
+/-- `computeObjValue` is the fold of the generated initial value and the two generated `result += …` terms -/
+theorem C08_gen_objvalue (m : MatrixModel) (x : Nat → Rat) :
+    computeObjValue m x =
+      some (((qEntries m).map (fun e => objQuadTerm (qVal m e.2) (x e.1) (x (qCol m e.2)))).foldl (· + ·)
+        (((List.range m.n).reverse.map (fun j => objLinTerm (cCoef m j) (x j))).foldl (· + ·) (objInit m.c0))) := by
+  unfold computeObjValue objQuadTerm objLinTerm objInit
+  have : (fun e : Nat × Nat => qVal m e.2 / 2 * x e.1 * x (qCol m e.2)) =
+      (fun e : Nat × Nat => (1 : Rat) / 2 * qVal m e.2 * x e.1 * x (qCol m e.2)) := by
+    funext e; grind
+  rw [this]
+
+/-- the coefficient written by `FeedObjExpression` is the generated `0.5 * Q.value_[pos]` -/
+theorem C08_gen_objexpr_coef (m : MatrixModel) (e : Nat × Nat) :
+    qTerm m e = .mul (.num (objExprCoef (qVal m e.2))) (.mul (.var (vperm m e.1)) (.var (vperm m (qCol m e.2)))) := by
+  unfold qTerm objExprCoef
+  have : qVal m e.2 / 2 = (1 : Rat) / 2 * qVal m e.2 := by grind
+  rw [this]
+
+theorem C08_gen_suffix_is_var (kind : Nat) :
+    sufIsVar kind = (kind % 4 == 0) ∧ feedSufIsVar kind = (kind % 4 == 0) := by
+  unfold sufIsVar feedSufIsVar
+  rw [and3_eq_mod4]
+  have : decide ((0 : Int) = ((kind % 4 : Nat) : Int)) = (kind % 4 == 0) := by
+    generalize kind % 4 = r
+    by_cases h : r = 0
+    · subst h; rfl
+    · have h' : ¬ (0 : Int) = ((r : Nat) : Int) := by omega
+      rw [decide_eq_false h']
+      exact (beq_eq_false_iff_ne.mpr h).symm
+  exact ⟨this, this⟩
+
+/-- the model's `nmax` (model header: `num_objs = 1`, no logical constraints) is the generated `NItemsMax` -/
+theorem C08_gen_nitemsmax (kind n mrows : Nat) :
+    (((match kind % 4 with | 0 => n | 1 => mrows | _ => 1) : Nat) : Int) = nItemsMax kind n mrows 0 1 := by
+  unfold nItemsMax
+  rw [and3_eq_mod4]
+  have h4 : kind % 4 < 4 := Nat.mod_lt _ (by decide)
+  generalize kind % 4 = r at *
+  match r, h4 with
+  | 0, _ => simp
+  | 1, _ => simp
+  | 2, _ => simp
+  | 3, _ => simp
+
+/-- the index guard of the model is the generated guard `val.first<0 || val.first>=nmax` with the generated `NItemsMax` -/
+theorem C08_gen_bad_index (n mrows kind : Nat) (entries : List (Nat × Rat)) :
+    solSuffixOk n mrows kind entries = entries.all (fun e => !sufBadIndex e.1 (nItemsMax kind n mrows 0 1)) := by
+  have guard_eq : ∀ (a nm : Nat), decide (a < nm) = !(decide ((a : Int) < 0) || decide ((a : Int) ≥ (nm : Int))) := by
+    intro a nm
+    by_cases h : a < nm
+    · have h1 : ¬ ((a : Int) < 0) := by omega
+      have h2 : ¬ ((a : Int) ≥ (nm : Int)) := by omega
+      simp [h, h1, h2]
+    · have h2 : ((a : Int) ≥ (nm : Int)) := by omega
+      simp [h, h2]
+  unfold solSuffixOk sufBadIndex
+  rw [← C08_gen_nitemsmax]
+  dsimp only
+  have h4 : kind % 4 < 4 := Nat.mod_lt _ (by decide)
+  generalize kind % 4 = r at *
+  match r, h4 with
+  | 0, _ => simp only [guard_eq]
+  | 1, _ => simp only [guard_eq]
+  | 2, _ => simp only [guard_eq]
+  | 3, _ => simp only [guard_eq]
+
+/-- un-permutation index arithmetic: the index written by `SOLHandler_Easy::OnSuffix` / `OnPrimalSolution` and by
+`FeedSuffixes`, as the model uses them (`sufTarget_leaves`, `primalTarget_leaves`, `feedSufIndex_leaves` say which
+arrays the parameters stand for: `pd_.vperm_inv_[…]` on the way back, `VPerm(i)` on the way out) -/
+theorem C08_gen_index_arithmetic (kind i invAt permAt : Nat) :
+    (((if kind % 4 == 0 then invAt else i) : Nat) : Int) = sufTarget (sufIsVar kind) invAt i ∧
+    primalTarget (invAt : Int) i = invAt ∧
+    (((if kind % 4 == 0 then permAt else i) : Nat) : Int) = feedSufIndex (feedSufIsVar kind) permAt i := by
+  obtain ⟨h1, h2⟩ := C08_gen_suffix_is_var kind
+  unfold sufTarget primalTarget feedSufIndex
+  rw [h1, h2]
+  cases (kind % 4 == 0) <;> simp
+
+end Gen
+
 /-! ## Non-vacuity -/
 
 /-- the worked example of the library (6 variables, MIQP): header counts are consistent here -/
@@ -302,6 +415,84 @@ def ex6 : MatrixModel :=
     rlb := [.fin 15, .fin 10], rub := [.fin 15, .pinf],
     A := { start := [0, 4], index := [1, 2, 3, 5, 1, 2, 3, 5], value := [1, 1, 1, 1, 1, -1, -1, 1] },
     ws := [], dws := [], sufs := [], colNames := none, rowNames := none, objName := "obj[1]" }
+
+
+/-! ## 9. Statement audit (round 4): guards of the real code, error branch, instances of the hypotheses
+
+The model is total (`getD` with defaults, truncated subtraction in the row walk) where the C++ reads arrays without a test
+and would loop forever on decreasing row starts.  `WF` states the caller contract the real code relies on; the theorems
+below show that under `WF` no default is ever used, so the theorems of §§1–6 are not true "for the wrong reason". -/
+
+/-- under the caller contract every array read of the Hessian walk (`FillNonlinearVars`, `FillObjNonzeros`,
+`FeedObjExpression`, `ComputeObjValue`) is in range: the `getD` defaults of `qCol` / `qVal` are never used -/
+theorem C08_reads_in_range (m : MatrixModel) (h : WF m) (e : Nat × Nat) (he : e ∈ qEntries m) :
+    e.1 < m.n ∧ e.2 < m.Q.index.length ∧ e.2 < m.Q.value.length ∧ qCol m e.2 < m.n ∧
+    m.Q.index[e.2]? = some (qCol m e.2) := by
+  have h1 : e.1 < m.n := qEntries_row_lt m e he
+  have h2 : e.2 < m.Q.index.length := by
+    unfold qEntries at he
+    split at he
+    · cases he
+    · exact walkDesc_pos_lt _ _ h.q_start_le _ _ (Nat.le_refl _) e he
+  refine ⟨h1, h2, by rw [h.q_val_len]; exact h2, qCol_lt m h.q_idx (by omega) _, ?_⟩
+  unfold qCol
+  rw [getD_eq_getElem' _ _ h2, List.getElem?_eq_getElem h2]
+
+/-- bounds without defaults: whatever the caller stored for column `j` is what is written at position `vperm j` -/
+theorem C08_bounds_follow_exact (m : MatrixModel) (j : Nat) (hj : j < m.n) (l u : Bnd)
+    (hl : m.lb[j]? = some l) (hu : m.ub[j]? = some u) :
+    (feedVarBounds m)[vperm m j]? = some (l, u) := by
+  have h := C08_bounds_follow m j hj
+  have hlen : vperm m j < (feedVarBounds m).length := by simp [feedVarBounds]; exact vperm_lt m hj
+  rw [List.getD_eq_getElem?_getD, List.getElem?_eq_getElem hlen] at h
+  rw [List.getElem?_eq_getElem hlen]
+  simp only [Option.getD_some] at h
+  rw [h, List.getD_eq_getElem?_getD, List.getD_eq_getElem?_getD, hl, hu]
+  rfl
+
+/-- ERROR BRANCH of the solution side: a suffix with an out-of-range index is never delivered, nor anything after it;
+everything delivered has only in-range indices and is the un-permuted dense vector of its own entries -/
+theorem C08_solution_suffixes_in_range (pd : Pd) (n mrows : Nat) (l : List (String × Nat × List (Nat × Rat)))
+    (s : String × Nat × List Rat) (hs : s ∈ readSolSuffixes pd n mrows l) :
+    ∃ t ∈ l, t.1 = s.1 ∧ t.2.1 = s.2.1 ∧ solSuffixOk n mrows t.2.1 t.2.2 = true ∧
+      s.2.2 = onSuffixPd pd n mrows t.2.1 t.2.2 := by
+  unfold readSolSuffixes at hs
+  rw [List.mem_map] at hs
+  obtain ⟨t, ht, rfl⟩ := hs
+  exact ⟨t, (List.takeWhile_sublist _).subset ht, rfl, rfl,
+    mem_takeWhile_true (p := fun s : String × Nat × List (Nat × Rat) => solSuffixOk n mrows s.2.1 s.2.2) ht, rfl⟩
+
+/-- and if the first suffix of the file is bad nothing is delivered -/
+theorem C08_bad_first_suffix (pd : Pd) (n mrows : Nat) (t : String × Nat × List (Nat × Rat))
+    (rest : List (String × Nat × List (Nat × Rat))) (hbad : solSuffixOk n mrows t.2.1 t.2.2 = false) :
+    readSolSuffixes pd n mrows (t :: rest) = [] ∧ solReadError n mrows (t :: rest) = true := by
+  constructor
+  · simp [readSolSuffixes, hbad]
+  · simp [solReadError, hbad]
+
+/-! ### Instances: the hypotheses used above are met by non-trivial models -/
+
+/-- the library's 6-variable MIQP meets the whole caller contract -/
+example : WF ex6 := by
+  constructor <;> first | decide | (intro t ht; cases ht; decide) | (intro c hc; cases hc; decide)
+
+example : (∀ c ∈ ex6.A.index, c < ex6.n) ∧ 0 < ex6.n ∧ ex6.Q.nnz = 3 ∧ ex6.A.nnz = 8 := by decide
+example : cxTypes.n = 2 ∧ (∀ c ∈ cxTypes.Q.index, c < cxTypes.n) ∧ (∀ s ∈ cxTypes.Q.start, s ≤ cxTypes.Q.nnz) ∧ ¬ cxTypes.Q.index.Nodup := by decide
+/-- `C08_suffix_follow`, direction ⇐: a nonzero value of a (double, variable) suffix is written at `vperm j` -/
+example : (vperm ex6 1, (5 : Rat)) ∈ (feedSuffix ex6 ⟨"priority", 4, [0, 5, 0, 0, 0, 0]⟩).entries :=
+  (C08_suffix_follow ex6 ⟨"priority", 4, [0, 5, 0, 0, 0, 0]⟩ (by decide) _).mpr ⟨1, 5, by decide, by decide, by simp⟩
+/-- direction ⇒: every written entry comes from a nonzero value -/
+example (e : Nat × Rat) (h : e ∈ (feedSuffix ex6 ⟨"priority", 4, [0, 5, 0, 0, 0, 0]⟩).entries) :
+    ∃ j v, ([0, 5, 0, 0, 0, 0] : List Rat)[j]? = some v ∧ v ≠ 0 ∧ e.1 = vperm ex6 j := by
+  obtain ⟨j, v, h1, h2, h3⟩ := (C08_suffix_follow ex6 ⟨"priority", 4, [0, 5, 0, 0, 0, 0]⟩ (by decide) e).mp h
+  exact ⟨j, v, h1, h2, by rw [h3]⟩
+/-- a history of three models of different sizes: the state is that of the last one -/
+example : runHistory ⟨[7, 7, 7, 7, 7, 7, 7], []⟩ [ex6, cxTypes, ex6, cxTypes] = pdOf cxTypes :=
+  C08_history_last _ [ex6, cxTypes, ex6] cxTypes
+/-- error branch instance: second suffix of the file has index 6 for 6 columns -/
+example : solSuffixOk 6 2 0 [(6, 1)] = false ∧ solSuffixOk 6 2 0 [(5, 1)] = true := by decide
+
+
 
 example : ex6.Q.index.Nodup ∧ (∀ c ∈ ex6.Q.index, c < ex6.n) ∧ (∀ s ∈ ex6.Q.start, s ≤ ex6.Q.nnz) := by decide
 example : (header ex6 true 1).nlvo = 3 ∧ (header ex6 true 1).nlvoi = 1 ∧ (header ex6 true 1).nbv = 1 ∧ (header ex6 true 1).niv = 1 := by decide
